@@ -70,17 +70,14 @@ Open Scope string_scope.
 Open Scope list_scope.
 Open Scope Z_scope.
 
-(* C06: a CEA never revives a connection: one that is CONNECTING, DISCONNECTING, CLOSING or CLOSED becomes
-   ready only by a CER of a configured peer; a read that holds answers only leaves it not ready *)
+(* C06: nothing revives a connection: one that is CONNECTING, DISCONNECTING, CLOSING or CLOSED is not ready
+   after the step, whatever the event is and whatever is received (neither a CEA nor a CER) *)
 Theorem C06_cea_never_revives n ds e cid c c' :
   (cid < n_next_cid n)%nat ->
   get_conn n cid = Some c ->
   (c_state c = SConnecting \/ c_state c = SDisconnecting \/ c_state c = SClosing \/ c_state c = SClosed) ->
   get_conn (fst (step n ds e)) cid = Some c' ->
-  (is_ready_state (c_state c') = true ->
-   exists ms, e = ERecv cid ms /\ exists m, List.In m ms /\ is_good_cer n m) /\
-  (forall ms, e = ERecv cid ms -> (forall m, List.In m ms -> m_req m = false) ->
-   is_ready_state (c_state c') = false).
+  is_ready_state (c_state c') = false.
 Proof. exact (@NodeA.C06_cea_never_revives n ds e cid c c'). Qed.
 End FromNodeA.
 
@@ -91,28 +88,17 @@ Import Coq.Lists.List Coq.micromega.Lia Coq.Bool.Bool Coq.Arith.Arith.
 Import ListNotations.
 Open Scope nat_scope.
 
-(* ---- invariant 4 ---- *)
-Theorem C12_outbound_owned : forall n0 n, reach n0 n -> ~ List.In ""%string (List.map p_name (n_peers n0)) ->
+(* ---- invariant 4 (unconditional since receive_cer acts only on a connection that awaits the CER:
+   the node name of an outbound connection is never rewritten) ---- *)
+Theorem C12_outbound_owned : forall n0 n, reach n0 n ->
   forall c, List.In c (n_conns n) -> c_recv c = false ->
   exists p, List.In p (n_peers n) /\ p_name p = c_node_name c /\ p_conn p = Some (c_id c).
 Proof. exact NodeD.C12_outbound_owned. Qed.
 
-Theorem C12_single_outbound : forall n0 n, reach n0 n -> ~ List.In ""%string (List.map p_name (n_peers n0)) ->
+Theorem C12_single_outbound : forall n0 n, reach n0 n ->
   forall c1 c2, List.In c1 (n_conns n) -> List.In c2 (n_conns n) ->
   c_recv c1 = false -> c_recv c2 = false -> c_node_name c1 = c_node_name c2 -> c1 = c2.
 Proof. exact NodeD.C12_single_outbound. Qed.
-
-(* ---- FINDING (C12): the hypothesis "no peer is named the empty string" is needed: a CER received
-   on a READY outbound connection to the peer named "" renames the connection; two outbound
-   connections then carry the node name "q" (the renamed one loses the election and is CLOSING; it
-   stays as long as its socket accepts no writes; once it is removed, the connection of peer ""
-   dangles). ---- *)
-Theorem C12_empty_name_refuted :
-  exists n0 evs, wf_init n0 /\
-    let n := fst (run n0 evs) in
-    exists c1 c2, List.In c1 (n_conns n) /\ List.In c2 (n_conns n) /\ c_recv c1 = false /\ c_recv c2 = false /\
-                  c_node_name c1 = c_node_name c2 /\ c_id c1 <> c_id c2.
-Proof. exact NodeD.C12_empty_name_refuted. Qed.
 End FromNodeD.
 
 Print Assumptions FromNodeC.C12_dpr.
@@ -125,4 +111,3 @@ Print Assumptions FromNodeC.persistent_stable.
 Print Assumptions FromNodeA.C06_cea_never_revives.
 Print Assumptions FromNodeD.C12_outbound_owned.
 Print Assumptions FromNodeD.C12_single_outbound.
-Print Assumptions FromNodeD.C12_empty_name_refuted.
